@@ -76,6 +76,37 @@ def mismatch(rng, pf2):
     return f'box {b} of level {lv} of the second plotfile is shifted by {s} cells along axis {d}'
 
 
+def mismatch2(rng, pf2):
+    """the same boxes listed in another order ('PERMUTED: ...': the box SET is
+    the same, so either a refusal or an output paired by index range is right),
+    or boxes with the same per-axis coordinate multisets that are other boxes.
+    -> description or None when the mesh has no two boxes to do it with"""
+    cands = [lv for lv in range(pf2.nlevels) if len(pf2.levels[lv].boxes) > 1]
+    if not cands:
+        return None
+    lv = rng.choice(cands)
+    lev = pf2.levels[lv]
+    shape = lambda b: tuple(h - l + 1 for l, h in zip(*b))
+    pairs = [(a, b) for a in range(len(lev.boxes)) for b in range(a + 1, len(lev.boxes)) if shape(lev.boxes[a]) == shape(lev.boxes[b])]
+    if not pairs:
+        return None
+    a, b = rng.choice(pairs)
+    if rng.random() < 0.5:
+        lev.boxes[a], lev.boxes[b] = lev.boxes[b], lev.boxes[a]
+        return f'PERMUTED: boxes {a} and {b} of level {lv} of the second plotfile are listed in the other order'
+    (lo1, hi1), (lo2, hi2) = lev.boxes[a], lev.boxes[b]
+    axes = [d for d in range(3) if lo1[d] != lo2[d]]
+    if len(axes) < 2:
+        return None
+    d = rng.choice(axes)
+    n1 = (tuple(lo2[k] if k == d else lo1[k] for k in range(3)), tuple(hi2[k] if k == d else hi1[k] for k in range(3)))
+    n2 = (tuple(lo1[k] if k == d else lo2[k] for k in range(3)), tuple(hi1[k] if k == d else hi2[k] for k in range(3)))
+    if n1 in lev.boxes or n2 in lev.boxes:
+        return None
+    lev.boxes[a], lev.boxes[b] = n1, n2
+    return f'boxes {a} and {b} of level {lv} of the second plotfile exchange their axis-{d} ranges (same per-axis coordinates, other boxes)'
+
+
 def gen_sel(rng, keys, side):
     kind = rng.choice(['none', 'none', 'list', 'list', 'string', 'with_unknown', 'perm'])
     if kind == 'none':
@@ -168,7 +199,11 @@ def run_case(seed):
     pf2 = second_plotfile(rng, pf1, relation)
     bad_mesh = None
     if rng.random() < 0.25:
-        bad_mesh = mismatch(rng, pf2)
+        r2 = random.Random(seed * 7919 + 13)
+        if r2.random() < 0.45:
+            bad_mesh = mismatch2(r2, pf2)
+        if not bad_mesh:
+            bad_mesh = mismatch(rng, pf2)
     keys1 = c01.reader_keys(pf1.fields)
     keys2 = c01.reader_keys(pf2.fields)
     p1 = core.scratch_dir(f"c06a_{seed}")
@@ -199,6 +234,15 @@ def run_case(seed):
         n1, n2 = resolve(keys1, keys2, v1, v2)
         if bad_mesh:
             written = os.path.exists(outp) and any(True for _ in os.scandir(outp))
+            if bad_mesh.startswith('PERMUTED') and res[0] == 'ok':
+                # same box set in another order: accepted -> the boxes must be paired by index range
+                try:
+                    bad = check_contents(oracle.contents_of_image(oracle.read_image(outp)), pf1, pf2, keys1, keys2, n1, n2)
+                except (ValueError, IndexError, KeyError) as e:
+                    bad = f'output is not a well-formed plotfile: {e}'
+                if bad:
+                    out['violations'].append(dict(desc, kind='wrong-output', what=bad + ' (' + bad_mesh + ')'))
+                continue
             if res[0] == 'ok':
                 out['violations'].append(dict(desc, kind='mismatch-accepted', what='inputs on different meshes were combined: ' + bad_mesh))
             elif written:
